@@ -21,6 +21,15 @@ CHECKS = {
          "Trusted: reference section encoder and model in /verif/checks/muxmon.go. Failed WriteData calls may or may not count towards the period (both accepted); a forced or periodic emission resets the period.", "5 C17"),
 }
 
+CHECKS.update({
+ "C01": (MC, "exhaustive enumeration of Muxer API histories (no state merging) and of single-WriteData shapes, each run on the real Muxer and demuxed by the real Demuxer, compared with the written model",
+         "Every history of length <= 3 (quick) / 4 (thorough) over a 24-25 operation alphabet from five set-up states, and every payload length 1..760 plus windows around 65535 and 131072 x PES header shapes (816 structural shapes) x first-packet adaptation fields sized to each room-left class: the real Demuxer must deliver, per PID and in order, exactly one PES per successful WriteData with identical payload, stream id, header fields and adaptation field content, and one PAT/PMT per emission describing the configuration.",
+         "Trusted: the written model (what the harness handed to WriteData) and the comparison code; demuxer run with explicit packet size 188. Two open known findings (adaptation field that leaves no room for the PES header).", "5 C01"),
+ "C18": (FE, "exhaustive fault-position enumeration: every Write index x {one-shot, permanent} on the real Muxer; every byte offset x reader kind x packet-size mode x API x read pattern on the real Demuxer",
+         "For each scenario every single Write call of the writer is made to fail (both modes) and the call during which the failure was injected must return an error wrapping it with n <= bytes accepted; for each stream every byte offset is the reader's failure point and the pending call must return a wrapping error (never ErrNoMorePackets, never a panic) with everything delivered before being a prefix of the fault-free output.",
+         "Configurations whose fault-free baseline does not work (auto-detection under short reads on non-bufio readers) are skipped and named in the evidence; that behaviour is C08's subject.", "5 C18"),
+})
+
 NOT_YET = {}
 
 def main():
